@@ -316,6 +316,28 @@ def keyword_positions(doc, X) -> List[list]:
     return out
 
 
+def _shadowed_everywhere(doc, X, base, path) -> bool:
+    """A blueprint option that every component of its scope (or another blueprint layer) re-defines."""
+    act = active(X)
+    stage = int(base[3]) if len(base) > 3 and base[2] == "stages" else None
+    for p, bp in doc.get("blueprint", {}).items():
+        if p not in ("default", act):
+            continue
+        layers = [(["blueprint", p, "global"], bp.get("global"))] + \
+                 [(["blueprint", p, "stages", s_], d) for s_, d in (bp.get("stages") or {}).items()]
+        for lbase, d in layers:
+            if lbase != base and isinstance(d, dict) and _has_path(d, path):
+                return True             # layering between blueprints decides which one counts: not a clean fault site
+    comps = [c for c in doc.get("components", []) if stage is None or int(c.get("stage", 0)) == stage]
+    if not comps:
+        return True
+    for c in comps:
+        own = _has_path(c, path) or _has_path((c.get("override") or {}).get(act) or {}, path)
+        if not own:
+            return False
+    return True
+
+
 def typed_positions(doc, X) -> List[Tuple[list, dict]]:
     out = []
     for base, d in _component_roots(doc, X):
@@ -325,6 +347,8 @@ def typed_positions(doc, X) -> List[Tuple[list, dict]]:
             if len(base) > 2 and base[0] == "components" and path in (("name",), ("stage",)):
                 continue
             if _has_path(d, path):
+                if base[0] == "blueprint" and _shadowed_everywhere(doc, X, base, path):
+                    continue     # no component inherits this blueprint value: the workflow it describes is unaffected
                 out.append((base + list(path), spec))
     used_v = {v for _, v in used_variables(doc, X)}
     act = active(X)
